@@ -1,4 +1,9 @@
+#[cfg(not(goml_verif))]
 use std::collections::{BTreeMap, HashMap, HashSet};
+#[cfg(goml_verif)]
+use std::collections::BTreeMap;
+#[cfg(goml_verif)]
+use crate::verif_hash::{HashMap, HashSet};
 use std::fs;
 use std::path::{Path, PathBuf};
 
